@@ -54,6 +54,10 @@ def rows():
     out.append(('M', '80H', False, tab[('M', '110H')]))
     out.append(('M', '100H', False, tab[('M', '110H')]))
     out.append(('M', '800', True, dict(gender='M', event_code='800', A=0.232, Z=200.0, X=1.85)))
+    # the ESAA option alters the boys' 800 m ONLY: every other row scores with its own coefficients when it is passed
+    for o in a._scoring_table:
+        if (o['gender'], o['event_code']) != ('M', '800') and (o['event_code'] in ('800', '1500', '100', 'HJ', 'SP') or o['gender'] == 'F' and o['event_code'] == '200'):
+            out.append((o['gender'], o['event_code'], True, o))
     return out
 
 
@@ -388,7 +392,19 @@ def unknown_pairs():
     return [('X', '100'), ('M', 'ZZ'), ('M', '12345'), ('F', '110H'), ('', ''), ('m', 'hj2'), ('F', '600'), ('M', '4x100'), ('F', '1000')]
 
 
+def replay_xhistory(rep):
+    import subprocess, sys, json, os
+    _, g, ev, mark, age = rep['input']
+    r = subprocess.run([sys.executable, '-c', XHIST, json.dumps([[g, age, ev, mark]])], capture_output=True, text=True, cwd=os.environ.get('ATHLIB_TREE', '/repo'), timeout=120)
+    fresh, after = json.loads(r.stdout.strip().splitlines()[-1])
+    print('replay %s: fresh %r, after the other graders %r' % (rep['obligation'], fresh[0], after[0]))
+    print('VIOLATION reproduced' if fresh != after else 'not reproduced on this tree')
+    return 1 if fresh != after else 0
+
+
 def replay(rep):
+    if isinstance(rep.get('input'), list) and rep['input'] and rep['input'][0] == 'xhistory':
+        return replay_xhistory(rep)
     if rep['input'][0] == 'history':
         r, bad = conc_frame(dict(g=rep['input'][1], ev=rep['input'][2], esaa=rep['input'][3]))
         print('replay %s: %s -> %s' % (rep['obligation'], r['call'], r['observed']))
@@ -428,6 +444,62 @@ def _work(job):
     return ('ground', job[1][:3], ground_chunk(job[1]))
 
 
+XHIST = r'''
+import sys, json, os
+sys.path.insert(0, os.environ.get('ATHLIB_TREE', '/repo'))
+import athlib
+def call(f, *a, **k):
+    try:
+        return ['ret', f(*a, **k)]
+    except Exception as e:
+        return ['exc', type(e).__name__]
+triples = json.loads(sys.argv[1])
+def scores():
+    return [call(athlib.athlon_score, g, ev, mark, age) for g, age, ev, mark in triples]
+r, w = os.pipe()
+pid = os.fork()
+if pid == 0:
+    os.close(r); os.write(w, json.dumps(scores()).encode()); os._exit(0)
+os.close(w)
+data = b''
+while True:
+    b = os.read(r, 65536)
+    if not b: break
+    data += b
+os.waitpid(pid, 0)
+fresh = json.loads(data.decode())
+# the history: the other graders of the package are asked about the same athletes first (both spellings of the gender, both years)
+for g, age, ev, mark in triples:
+    for gg in (g, g.lower()):
+        for kw in ({}, {'year': 2015}, {'year': '2023'}):
+            call(athlib.wma_age_factor, gg, age, ev, **kw)
+            call(athlib.wma_age_grade, gg, age, ev, mark, **kw)
+        call(athlib.wma_athlon_age_factor, gg, age, ev)
+print(json.dumps([fresh, scores()]))
+'''
+
+
+def cross_grader_history(run):
+    """bounded: the points for (gender, event, mark, age) after the WMA single-event graders were asked about the same athlete equal
+    the points in a process that asked nothing before (forked child)"""
+    import subprocess, sys, json, os
+    triples = [(g, age, ev, mark) for g in 'MF' for age in (35, 53, 70) for ev, mark in (('100', 12.5), ('800', 150.0), ('LJ', 5.0), ('SP', 9.5), ('HJ', 1.5))]
+    name = 'history/points-do-not-depend-on-what-other-graders-were-asked'
+    r = subprocess.run([sys.executable, '-c', XHIST, json.dumps(triples)], capture_output=True, text=True, cwd=os.environ.get('ATHLIB_TREE', '/repo'), timeout=300)
+    if r.returncode != 0 or not r.stdout.strip():
+        run.record(name, 'ground', 'unknown', 'ground-evaluation', 0.0, 'history', 'harness failed: %s' % r.stderr[-200:])
+        return
+    fresh, after = json.loads(r.stdout.strip().splitlines()[-1])
+    bad = [(t, a, b) for t, a, b in zip(triples, fresh, after) if a != b]
+    run.record(name, 'ground', 'refuted' if bad else 'proved', 'ground-evaluation', 0.0, 'history')
+    if bad:
+        (g, age, ev, mark), a, b = bad[0]
+        run.violation(name, dict(call='athlon_score(%r,%r,%r,%r) after wma_age_factor / wma_age_grade / wma_athlon_age_factor for the same athlete' % (g, ev, mark, age),
+                                 observed=b, required=a, input=['xhistory', g, ev, mark, age]), True)
+    run.bounded.append(dict(what='points after the other graders of the package were asked about the same athlete vs a fresh (forked) process',
+                            bound='%d athletes' % len(triples), evaluations=len(triples), distinct_nontrivial=len(triples), decides='history independence across graders (bounded)'))
+
+
 def main(tier, seed):
     run = report.Run(PROP, tier, seed)
     run.expected_min_obligations = 300
@@ -438,6 +510,11 @@ def main(tier, seed):
                'oracle: float estimate of A*t^X trusted only further than 1e-7 relative from an integer boundary, exact integer comparison otherwise',
                'reading: with an age, events absent from the combined-events age table (60, 600, 3000, 5000, 10000, 3000SC) may refuse with ValueError',
                'marks are the nearest double to k/100, or ints')
+    # static frame: nothing in the call graph of score() writes to state that outlives the call (module tables, class-level
+    # containers, shared graders) other than the one publish of the built index - the points are a function of the arguments
+    from pyvc.frames import frame_obligations
+    frame_obligations(run, [_a().score])
+    cross_grader_history(run)
     RS = rows()
     J = []
     for g, ev, esaa, o in RS:
